@@ -452,6 +452,104 @@ def run_dist_upgrader(rep, rng, n, skel: Path, mirror: Path):
     return found
 
 
+# ------------------------------------------------------------------ complete runs against a hostile upstream
+HOSTILE_NAMES = [
+    "../../../../outside_{m}/evil.deb", "/tmp/abs_{m}/evil.deb", "pool/main/../../../../../outside_{m}/e.deb",
+    "pool/%2e%2e/%2e%2e/%2e%2e/%2e%2e/%2e%2e/escaped_{m}/e.deb", "%2e%2e/%2e%2e/%2e%2e/escaped_{m}/e.deb",
+    "pool/..%2f..%2f..%2f..%2f..%2fescaped_{m}/e.deb", "pool/main/%2E%2E/%2E%2E/%2E%2E/%2E%2E/esc_{m}/e.deb",
+    "pool/./main/x_{m}/./ok.deb", "pool/main/x_{m}/%41%2eb.deb", "pool/main/a/../b_{m}/c.deb",
+    "pool/main/x_{m}/..%00/e.deb", "..\\..\\..\\bs_{m}/e.deb", "pool/main/x_{m}/~tilde.deb",
+]
+
+
+def run_hostile_runs(rep, rng, n):
+    """APTMirror.run() on repositories whose Packages / Sources indices carry hostile file names next to
+    ordinary ones: EVERY filesystem mutation of the run (audit hook) must lie below that repository's skel or
+    mirror directory or below var; the ordinary entries must still be mirrored."""
+    from . import pipeline as P
+    from . import runs as R
+    found = False
+    sb = P.sandbox("vsb_c06_")
+    try:
+        for i in range(n):
+            scn = P.gen_scenario(rng, nrepos=rng.choice([1, 2]), small=True)
+            scn.nthreads = rng.choice([1, 4])
+            marks = {}
+            injected = []
+            for ri, r in enumerate(scn.repos):
+                m = f"R{ri}x{i}"
+                marks[r["url"]] = m
+                for cn, c in r["version"]["codenames"].items():
+                    for comp, cc in c["components"].items():
+                        for arch, pk in cc["arches"].items():
+                            for k in range(rng.randint(0, 2)):
+                                fn = rng.choice(HOSTILE_NAMES).format(m=m)
+                                pk.insert(rng.randint(0, len(pk)), {"name": f"evil{k}{arch[:2]}", "version": "1", "size": 9, "filename": fn})
+                                injected.append(fn)
+                        if cc["sources"] is not None and rng.random() < 0.6:
+                            d = rng.choice(HOSTILE_NAMES).format(m=m).rsplit("/", 1)[0]
+                            cc["sources"].append({"name": f"evsrc{m}", "version": "1", "directory": d,
+                                                  "files": [["dsc", 7], [rng.choice(["orig.tar.gz", "../up.tar.gz", "%2e%2e/up.tar.gz"]), 5]]})
+                            injected.append(d + "/")
+            base = sb / f"h{i}"
+            files = R.files_of(scn)
+            from pathlib import PurePosixPath
+            for fl in files.values():      # a server answers the path the client sends: pathlib's spelling of the name
+                for k in list(fl):
+                    fl.setdefault(str(PurePosixPath(k)), fl[k])
+            res = R.run_observed(scn, base, files_by_url=files, trace=True)
+            roots = {}
+            for r in scn.repos:
+                d = P.repo_dir(r["url"])
+                roots[r["url"]] = [str(base / "skel" / d), str(base / "mirror" / d)]
+            allowed = [x for v in roots.values() for x in v] + [str(base / "var")]
+            bad = []
+            for kind, paths in res.events:
+                for q in paths:
+                    q = os.path.normpath(q)
+                    if any(q == a or q.startswith(a + "/") for a in allowed):
+                        # inside some repository: a path that carries the mark of repository X must be inside X
+                        for u, m in marks.items():
+                            if m in q and not any(q == a or q.startswith(a + "/") for a in roots[u] + [str(base / "var")]):
+                                bad.append((kind, q, "inside another repository's directory"))
+                        continue
+                    if kind == "mkdir" and any(a.startswith(q + "/") for a in allowed):
+                        continue          # creating an ancestor of its own directories
+                    bad.append((kind, q, "outside skel/<repository>, mirror/<repository> and var"))
+            # realpath, too: nothing below the sandbox except the configured top-level directories
+            extra = sorted(x for x in os.listdir(base) if x not in ("skel", "mirror", "var", "mirror.list", "auth.conf"))
+            rep.case(("hostile_run", len(scn.repos), len(injected), tuple(sorted({x.split("/")[0][:6] for x in injected})), res.code),
+                     sample={"injected": injected[:6], "exit": res.code})
+            rep.count("hostile_run")
+            rep.count("hostile_run.exit_%s" % res.code)
+            rep.count("hostile_run.injected_names", len(injected))
+            if bad or extra:
+                found = True
+                rep.violation(f"a complete run against an upstream whose indices name {injected[:3]} touched "
+                              f"{(bad or [('created', extra[0], 'in the base directory')])[0]}",
+                              {"kind": "oracle", "tie": "hostile_run", "case": {"injected": injected, "bad": [list(b) for b in bad[:8]],
+                                                                               "extra": extra, "config": scn.config_text(Path("/BASE"))}},
+                              tags={"oracle": "confined_run"})
+                continue
+            # the rest of the repository is still mirrored
+            if res.code != 0 or res.exc:
+                found = True
+                rep.violation(f"a fault-free run against an upstream with hostile index entries {injected[:3]} exits {res.code} ({res.exc})",
+                              {"kind": "oracle", "tie": "hostile_run", "case": {"injected": injected, "exit": res.code, "exc": res.exc}},
+                              tags={"oracle": "hostile_rest_mirrored"})
+                continue
+            missing = [x for x in P.fsck(scn, base) if not any(m in x for m in marks.values())]
+            if missing:
+                found = True
+                rep.violation(f"after a run against an upstream with hostile index entries the ordinary part of the mirror is incomplete: {missing[:3]}",
+                              {"kind": "oracle", "tie": "hostile_run", "case": {"injected": injected, "missing": [str(x) for x in missing[:6]]}},
+                              tags={"oracle": "hostile_rest_mirrored"})
+            shutil.rmtree(base, ignore_errors=True)
+    finally:
+        shutil.rmtree(sb, ignore_errors=True)
+    return found
+
+
 def run(rep: C.Report):
     rep.rule = ("hostile path strings from an attacker grammar (.. runs, absolute, re-entry through the "
                 "sandbox's own directory names, suffix tricks) fed to the real guard/parsers; a case is "
@@ -474,6 +572,7 @@ def run(rep: C.Report):
             for k in out:
                 all_out[k].extend(out[k])
         found |= run_dist_upgrader(rep, random.Random(rep.seed + 606), 40 if rep.tier == "quick" else 1500, skel, mirror)
+        found |= run_hostile_runs(rep, random.Random(rep.seed + 607), 40 if rep.tier == "quick" else 1200)
         header = HEADER + COQ_DEFS
         for tie, (fn, eqb) in TIES.items():
             cs = all_out[tie]
